@@ -121,8 +121,8 @@ SCENARIOS = {
                                      ('alloc_put', 39, dict(cons(2, 1, [(6, [(0, 1)])]), user=2))]),
     ],
 }
-# scenarios judged by the oracles only (the model's thread has another transaction granularity there)
-MODEL_SKIP = {'reshape-wiping-consumer-vs-class-delete'}
+# scenarios judged by the oracles only (none at present)
+MODEL_SKIP = set()
 BUDGET = {'quick': 24, 'thorough': 400}        # executed interleavings per scenario
 
 
@@ -279,8 +279,10 @@ def run(pid, tier, seed):
         # every request kind is a thread of Model/ConcAll.v (theorems C08_ri_all_schedules_partial ...): every executed schedule
         # is replayed there - statuses and core tables must agree
         try:
-            bad = tree_model_check(all_cases, setup=SETUP, module='ConcAll', fn='a_sched_agrees',
-                                   rcmap={1000: 10000, 1001: 10001})
+            # C08 runs at the fine granularity (the class cache load of a request is a slot of its own), the others at the
+            # coarse one (it runs together with the following transaction)
+            bad = tree_model_check(all_cases, setup=SETUP, module='ConcAll',
+                                   fn='a_sched_agrees' if pid == 'C08' else 'a_sched_agrees_coarse', rcmap={1000: 10000, 1001: 10001})
             stats['model_compared_schedules'] = len(all_cases)
             stats['model_disagreements'] = len(bad)
             if bad:
